@@ -300,8 +300,16 @@ func cmdDump(args []string) {
 		}
 		if *obl == "" {
 			var ss []string
-			for _, s := range t.sites {
-				ss = append(ss, s)
+			for in, s := range t.sites {
+				pp := in.Pos()
+				if iff, ok := in.(*ssa.If); ok {
+					pp = condPos(iff.Cond)
+				}
+				ps := g.posStr(pp)
+				if i := strings.LastIndex(ps, ":"); i >= 0 {
+					ps = ps[i+1:]
+				}
+				ss = append(ss, s+"@"+ps)
 			}
 			sort.Strings(ss)
 			fmt.Println("  sites:", strings.Join(ss, " "))
